@@ -16,6 +16,7 @@
   Core Lean only.
 -/
 import NutsModel.Base
+import NutsModel.C01.Atoi
 namespace Nuts.C01
 
 abbrev Time := Int        -- unix milliseconds (the harness only generates whole milliseconds)
@@ -82,10 +83,14 @@ structure Status where
   id : String := ""
   typ : String := ""
   purpose : String := ""
-  index : Option Nat := none          -- strconv.Atoi(statusListIndex)
+  indexText : String := ""            -- statusListIndex as written in the document (a JSON string)
   listCred : String := ""
   entryValid : Bool := true           -- raw entry unmarshals and StatusList2021Entry.Validate() passes
   deriving Repr, DecidableEq, Inhabited
+
+/-- `strconv.Atoi(statusListIndex)` with `n >= 0` — computed by the model from the document's text (NutsModel/C01/Atoi.lean);
+    it used to be a measured input -/
+def Status.index (s : Status) : Option Nat := indexOfText s.indexText
 
 /-- JOSE header / registered claims of a JWT document -/
 structure JwtInfo where
